@@ -76,3 +76,86 @@ func c07JoinLevel(run *evid.Run, x *hx.Exec, h *hx.History, e *entry.Entry, cl s
 			"a merge of %d entries admitted an entry tampered by %s at depth %d of the chain (codec %s)", n, name, pos, h.Codec)
 	}
 }
+
+// c07JoinAfterTrim: a log validates another writer's entries in a size-bounded merge that trims them out again;
+// later the same entries are offered with one of them tampered (same hash, same signature). Having seen the
+// genuine entry before must not make the log trust the look-alike.
+func c07JoinAfterTrim(run *evid.Run, x *hx.Exec, h *hx.History, e *entry.Entry, rng *rand.Rand, wit func(string) map[string]any) {
+	w := x.W
+	wr := 0
+	if len(w.Idents) > 1 {
+		wr = 1
+	}
+	src := w.NewLog(wr)
+	m := 1 + rng.Intn(20)
+	var chain []iface.IPFSLogEntry
+	for k := 0; k < m; k++ {
+		ce, err := src.Append(w.Ctx, []byte(fmt.Sprintf("%d.%d/trim%d", h.Seed, h.Idx, k)), nil)
+		if err != nil {
+			return
+		}
+		chain = append(chain, ce)
+	}
+	dst := w.NewLog(0)
+	own := m + 1 + rng.Intn(4)
+	for k := 0; k < own; k++ {
+		if _, err := dst.Append(w.Ctx, []byte(fmt.Sprintf("%d.%d/own%d", h.Seed, h.Idx, k)), nil); err != nil {
+			return
+		}
+	}
+	size := rng.Intn(own - m + 1) // only the destination's own newest entries survive
+	if _, err := dst.Join(src, size); err != nil {
+		run.Violate("C07/honest-bounded-merge-failed", det("codec", h.Codec), wit("bounded merge"), "size-bounded merge of an honest log failed: %v", err)
+		return
+	}
+	pos := rng.Intn(m)
+	victim := chain[pos].(*entry.Entry)
+	if _, still := dst.Get(victim.Hash); still {
+		return // not trimmed out (ties in the ordering): nothing to offer again
+	}
+	ms := mutations(e)
+	var v *entry.Entry
+	var name string
+	for try := 0; try < 20 && v == nil; try++ {
+		mu := ms[rng.Intn(len(ms))]
+		if mu.field == "next" || mu.field == "refs" || mu.field == "key" || mu.field == "id" {
+			continue
+		}
+		c := cloneEntry(victim)
+		if mu.apply(c, rng) {
+			v, name = c, mu.name
+		}
+	}
+	if v == nil {
+		return
+	}
+	ents := append([]iface.IPFSLogEntry(nil), chain...)
+	ents[pos] = v
+	lo := w.LogOpts(w.LogID)
+	lo.Entries = entry.NewOrderedMapFromEntries(ents)
+	lo.Heads = []iface.IPFSLogEntry{ents[m-1]}
+	tampered, err := ipfslog.NewLog(w.Store.API(), w.Idents[wr], lo)
+	if err != nil {
+		return
+	}
+	size2 := -1
+	if rng.Intn(3) == 0 {
+		size2 = own + m
+	}
+	_, jerr := dst.Join(tampered, size2)
+	run.Count("join_level_tamper_after_bounded_merge_checks", 1)
+	if jerr != nil {
+		return
+	}
+	got, admitted := dst.Get(victim.Hash)
+	if !admitted {
+		return
+	}
+	if hx.ContentDigest(got) == hx.ContentDigest(victim) {
+		return
+	}
+	wt := wit(name)
+	wt["sequence"] = fmt.Sprintf("dst(%d own entries).Join(src of %d entries, size=%d) trims src's entries out; then dst.Join(src with entry #%d tampered by %s, size=%d)", own, m, size, pos, name, size2)
+	run.Violate("C07/tampered-entry-merged", det("mutation", name, "codec", h.Codec, "after", "bounded merge that validated and trimmed the genuine entry"), wt,
+		"an entry tampered by %s was merged without failing verification after the genuine entry had been validated and trimmed out by an earlier size-bounded merge (codec %s)", name, h.Codec)
+}
